@@ -20,6 +20,7 @@ DEV_KEYS = {"protocol-property-member-untyped", "none-valued-attribute-satisfies
 # cfg -> invariant TLC must report as violated (sensitivity self-tests of the model)
 SENSITIVITY = {
     "Protocols.sens_skipabc.cfg": ("InvPSound", "member collection that skips bases without _is_protocol (ABC bases) is unsound"),
+    "Protocols.sens_firstlit.cfg": ("InvPSound", "a union on the right of which only the first literal per run-time type is checked is unsound"),
     "Protocols.sens_nodev.cfg": ("InvPSound", "without the named deviation classes the unchanged model is unsound (each class is shown inhabited "
                                               "by InvPDevInhabited in the pairs run)"),
     "Protocols.hist_strict.cfg": ("InvPHistIndepStrict", "the poisoned positive cache breaks history independence on the model"),
@@ -173,6 +174,7 @@ def run_slice(check: core.Check, rnd: random.Random) -> None:
     if len(pairs) < 1000:
         raise core.MachineryError("Protocols pairs run emitted suspiciously few pairs")
     check.cov["protocols_table_selftest"] = pc.selftest_table(table, order)
+    check.cov["protocols_table_selftest"]["functions"] = pc.selftest_functions([r for r in rows if "fn" in r])
     # ---- sensitivity of the model + history machine + trace self-test: TLC in background threads while the pairs are
     #      replayed through the real code
     import pyanalyze.checker  # noqa: F401  (imported before the workers fork)
@@ -196,19 +198,23 @@ def run_slice(check: core.Check, rnd: random.Random) -> None:
     for p in reversed(pairs):
         by_b.setdefault(core.canon(p["b"]), []).append(p)
     groups = list(by_b.values())
-    hists += [{"steps": pc.expand_unions([p for g in groups[i : i + 4] for p in g]), "src": "pairs-by-B"} for i in range(0, len(groups), 4)]
+    # (the members of a union are checked next to it in the by-A histories only)
+    hists += [{"steps": [{**p, "nparts": 0} for g in groups[i : i + 6] for p in g], "src": "pairs-by-B"} for i in range(0, len(groups), 6)]
     hists.sort(key=lambda h: -len(h["steps"]))
     obs = core.pmap(pc.observe_history, list(enumerate(hists)), chunk=1)
     # (3) the visitor: def use(p: A) / use(<B>) for every protocol type A
-    protos = [p for p in {core.canon(p["a"]): p["a"] for p in pairs}.values() if p["k"] in ("typed", "generic") and p["c"] in pc.PU.PROTOCOLS]
+    a_terms = list({core.canon(p["a"]): p["a"] for p in pairs}.values())
+    protos = [p for p in a_terms if p["k"] in ("typed", "generic") and p["c"] in pc.PU.PROTOCOLS]
     bs = list({core.canon(p["b"]): p["b"] for p in pairs}.values())
-    snip = core.pmap(pc.observe_snippets, [(0, a, bs) for a in protos], chunk=1)
+    offered = {core.canon(a): [p["b"] for p in pairs if p["a"] == a] for a in protos + [a for a in a_terms if a["k"] == "callable"]}
+    snip = core.pmap(pc.observe_snippets, [(0, a, offered[core.canon(a)]) for a in protos + [a for a in a_terms if a["k"] == "callable"]], chunk=1)
     snips = [o for part in snip for o in part]
     # (4) the member sets pyanalyze collected, (5) CPython as validation of the oracle
     members = core.pmap(pc.observe_members, list(enumerate(sorted(pc.PU.PROTOCOLS))), chunk=2)
     pts = [p for p in protos if p != {"k": "typed", "c": "PG"}]
-    objs = [b["o"] for b in bs if b["k"] == "known"]
-    rt = [pc.observe_runtime((0, {"o": o, "pt": pt})) for o in objs for pt in pts]
+    objs = [b["o"] for b in bs if b["k"] == "known"]  # instances, scalars, function literals, class literals
+    # (class objects only against the data-member protocols they are offered to)
+    rt = [pc.observe_runtime((0, {"o": o, "pt": pt})) for o in objs for pt in pts if o["c"] != "type" or pt["c"] in ("PA", "PAn")]
 
     # (2) histories of the positive-cache machine: all in which the model sees a cache effect + a sample of the others
     #     (thorough: plus random 4-step histories over a cross-section of the whole space by TLC simulation); each step also gets the verdict
@@ -252,7 +258,9 @@ def run_slice(check: core.Check, rnd: random.Random) -> None:
         "pairs": len(pairs), "histories": len(hists) + len(chists), "history_steps": n_steps, "cache_machine_histories": len(chists),
         "histories_with_model_cache_effect": len(effect), "fresh_checker_pairs": len(fresh_obs), "snippet_calls": len(snips),
         "member_sets": len(members), "runtime_oracle_validations": len(rt), "verdicts": counts,
-        "bounds": "all 28 expected types x 144 offered types (3753 model states) replayed in two different histories each (by "
+        "bounds": "all 31 expected types (18 protocols + PG[t], unions, object, nominal classes, 3 Callable types) x 144 offered types + "
+                  "function literals, a second instance of one class, class literals (for the data-member protocols) and the unions of "
+                  "same-run-time-type literals in every order (pairs, two triples) -- 5770 model states -- replayed in two different histories each (by "
                   "expected type in TLC's order, by offered type in reverse order); cache machine: all 2-step histories over the "
                   "recursive family (22651 states), replayed: every history with a model cache effect + a sample"
                   + ("" if quick else "; 3-step histories over the core of the recursive family checked on the model (65641 states); 600 simulated 4-step "
